@@ -142,6 +142,12 @@ let rec dump_doc b (d : doc) =
 
 let doc_to_string d = let b = Buffer.create 256 in dump_doc b d; Buffer.contents b
 
+let site_name = function
+  | SMathDelimitedSlice -> "math_delimited_slice" | SChainRemove0 -> "chain_remove0"
+  | SCommentUnreachable -> "comment_unreachable" | SFollowLeadingUnwrap -> "follow_leading_unwrap"
+  | SArgsInMathSlice -> "args_in_math_slice" | SMarkupExpect -> "markup_expect" | SRootCast -> "root_cast"
+  | SImportCast -> "import_cast" | STrimRange -> "trim_range" | SBadRequest -> "bad_request"
+
 let each_line f =
   try
     while true do
@@ -176,6 +182,29 @@ let () =
           match render w d with
           | Some s -> hex_of_str s
           | None -> "fuel")
+  | "conv" ->
+      (* W TAB REORDER NW (HEX WIDTH)*NW TREE -> ok COUNT DOC<tab>OUTHEX | err | panic SITE | fuel *)
+      each_line (fun line ->
+          let t = toks_of line in
+          let w = n_of_int (int_of_string (next t)) in
+          let tab = n_of_int (int_of_string (next t)) in
+          let reo = (next t = "1") in
+          let nw = int_of_string (next t) in
+          let table = List.init nw (fun _ -> let h = next t in let wd = int_of_string (next t) in (h, n_of_int wd)) in
+          let swidth (s : str) : n =
+            match List.assoc_opt (hex_of_str s) table with
+            | Some x -> x
+            | None -> n_of_int (List.length s) in
+          let tree = parse_tree t in
+          let cfg = { tab_spaces = tab; max_width = w; blank_lines_upper_bound = cfg_default.blank_lines_upper_bound;
+                      reorder_import_items = reo } in
+          if erroneous tree then "err"
+          else match convert_root swidth cfg tree with
+            | Panic s -> "panic " ^ site_name s
+            | Ok (d, cnt) ->
+                (match render w d with
+                 | Some out -> Printf.sprintf "ok %d %s\t%s" (int_of_n cnt) (doc_to_string d) (hex_of_str (strip out))
+                 | None -> "fuel"))
   | "cli" ->
       each_line (fun line ->
           let t = toks_of line in
